@@ -77,8 +77,8 @@ func (esp *EntityStreamParser) ParseTransaction(reader io.Reader) (*Transaction,
 		return nil, errors.New("parsing error: Unable to decode context " + err.Error())
 	}
 
-	for k, v := range context["namespaces"].(map[string]interface{}) {
-		esp.localNamespaces[k] = v.(string)
+	if err = esp.readNamespaces(context); err != nil {
+		return nil, err
 	}
 
 	for {
@@ -91,7 +91,10 @@ func (esp *EntityStreamParser) ParseTransaction(reader io.Reader) (*Transaction,
 				return nil, errors.New("parsing error: Unexpected delimiter: " + delimVal.String())
 			}
 		} else {
-			datasetName := t.(string)
+			datasetName, isString := t.(string)
+			if !isString {
+				return nil, errors.New("parsing error: expected dataset name")
+			}
 
 			// read [
 			t, err = decoder.Token()
@@ -132,6 +135,22 @@ func (esp *EntityStreamParser) ParseTransaction(reader io.Reader) (*Transaction,
 	return txn, nil
 }
 
+// readNamespaces copies the namespace declarations of a context object into the parser, rejecting ill-typed ones
+func (esp *EntityStreamParser) readNamespaces(context map[string]interface{}) error {
+	namespaces, ok := context["namespaces"].(map[string]interface{})
+	if !ok {
+		return errors.New("parsing error: context must contain a namespaces object")
+	}
+	for k, v := range namespaces {
+		expansion, isString := v.(string)
+		if !isString {
+			return errors.New("parsing error: namespace expansion must be a string")
+		}
+		esp.localNamespaces[k] = expansion
+	}
+	return nil
+}
+
 func (esp *EntityStreamParser) ParseStream(reader io.Reader, emitEntity func(*Entity) error) error {
 	decoder := json.NewDecoder(reader)
 
@@ -154,8 +173,8 @@ func (esp *EntityStreamParser) ParseStream(reader io.Reader, emitEntity func(*En
 	}
 
 	if context["id"] == "@context" {
-		for k, v := range context["namespaces"].(map[string]interface{}) {
-			esp.localNamespaces[k] = v.(string)
+		if err = esp.readNamespaces(context); err != nil {
+			return err
 		}
 	} else {
 		return errors.New("first entity in array must be a context")
@@ -222,11 +241,15 @@ func (esp *EntityStreamParser) parseEntity(decoder *json.Decoder) (*Entity, erro
 					return nil, errors.New("unable to read token of id value " + err2.Error())
 				}
 
-				if val.(string) == "@continuation" {
+				idVal, isString := val.(string)
+				if !isString {
+					return nil, errors.New("id value must be a string")
+				}
+				if idVal == "@continuation" {
 					e.ID = "@continuation"
 					isContinuation = true
 				} else {
-					nsID, err2 := esp.store.GetNamespacedIdentifier(val.(string), esp.localNamespaces)
+					nsID, err2 := esp.store.GetNamespacedIdentifier(idVal, esp.localNamespaces)
 					if err2 != nil {
 						return nil, err2
 					}
@@ -237,14 +260,22 @@ func (esp *EntityStreamParser) parseEntity(decoder *json.Decoder) (*Entity, erro
 				if err2 != nil {
 					return nil, errors.New("unable to read token of recorded value " + err2.Error())
 				}
-				e.Recorded = uint64(val.(float64))
+				recorded, isNumber := val.(float64)
+				if !isNumber {
+					return nil, errors.New("recorded value must be a number")
+				}
+				e.Recorded = uint64(recorded)
 
 			case "deleted":
 				val, err2 := decoder.Token()
 				if err2 != nil {
 					return nil, errors.New("unable to read token of deleted value " + err2.Error())
 				}
-				e.IsDeleted = val.(bool)
+				deleted, isBool := val.(bool)
+				if !isBool {
+					return nil, errors.New("deleted value must be a boolean")
+				}
+				e.IsDeleted = deleted
 
 			case "props":
 				e.Properties, err = esp.parseProperties(decoder)
